@@ -368,8 +368,13 @@ def cli_batch(res):
                 luaf = os.path.join(d, 'b%d.lua' % n)
                 open(luaf, 'wb').write(src)
                 outp = os.path.join(d, 'b%d.p8' % n)
+                pathpng = os.path.join(d, 'm%d.p8.png' % n)
+                p8file.to_file(carts.make_game({}, version=33, code_lines=[src]), pathpng)
+                outpng = os.path.join(d, 'b%d.p8.png' % n)
                 for what, args, result in (('luamin', ['luamin'] + flags + [path], os.path.join(d, 'm%d_fmt.p8' % n)),
-                                           ('build', ['build', outp, '--lua', luaf, '--lua-minify'] + flags, outp)):
+                                           ('build', ['build', outp, '--lua', luaf, '--lua-minify'] + flags, outp),
+                                           ('luamin-png', ['luamin'] + flags + [pathpng], os.path.join(d, 'm%d_fmt.p8.png' % n)),
+                                           ('build-png', ['build', outpng, '--lua', luaf, '--lua-minify'] + flags, outpng)):
                     try:
                         rc_ = tool.main(args)
                         code = b''.join(p8file.from_file(result).lua.to_lines())
